@@ -107,8 +107,8 @@ func pairs(m map[int]int) [][]int {
 	return out
 }
 
-func str(b []int) string  { return strOf(b) }
-func bs(s string) []int   { return bytesOf(s) }
+func str(b []int) string     { return strOf(b) }
+func bs(s string) []int      { return bytesOf(s) }
 func hl(ll [][]int) *tt.HRes { return &tt.HRes{LL: ll} }
 
 // nested argument: {"t":"v","v":3} | {"t":"l","l":[..]} | {"t":"s","s":[1,2]} ([]int leaf slice) | {"t":"x"} (malformed)
@@ -191,10 +191,10 @@ func (helperSys) Do(o tt.Op) tt.Res {
 
 var helperFns = map[string]func(o tt.Op) tt.Res{}
 
-func rs(s []int) tt.Res      { return tt.Res{Ok: true, S: cp(s)} }
-func rv(v int) tt.Res        { return tt.Res{Ok: true, V: v} }
-func rb(b bool) tt.Res       { return tt.Res{Ok: b} }
-func rll(ll [][]int) tt.Res  { return tt.Res{Ok: true, H: hl(ll)} }
+func rs(s []int) tt.Res     { return tt.Res{Ok: true, S: cp(s)} }
+func rv(v int) tt.Res       { return tt.Res{Ok: true, V: v} }
+func rb(b bool) tt.Res      { return tt.Res{Ok: b} }
+func rll(ll [][]int) tt.Res { return tt.Res{Ok: true, H: hl(ll)} }
 func rerr(s []int, err error) tt.Res {
 	return tt.Res{Ok: err == nil, S: cp(s), H: &tt.HRes{E: err != nil}}
 }
